@@ -328,3 +328,12 @@ def r08_8(ctx):
 
     argument_kind_independence(ctx)
     r05_3(ctx)
+
+
+@rule("R08.9", "C08", "nested calls: the call (and the store of its result) an argument depends on is sequenced right in front of the consumer - whatever node the argument sits under, also when the consumer is a call without a value", min_instances=30)
+def r08_9(ctx):
+    from .c06 import op_list_completeness, pending_effect_placement, r06_1
+
+    pending_effect_placement(ctx)
+    op_list_completeness(ctx)
+    r06_1(ctx)
